@@ -151,7 +151,7 @@ PROPS = {
                        "Shape variants have a path that does not return TypeErr), by per-variant path analysis; required: VM set "
                        "(mapped kind -> shape) is a subset of the checker set. R21a: map/filter/reduce targets; R21b: the forms the "
                        "translator lowers after `.` on a tuple / resolved import; R21c: copy bases and `not`. Not decided: "
-                       "completeness of the checker in general (value-level rules of narrow, e.g. `[1] + [\"a\"]`). Added later: R21b for partly known left shapes, R21h (F33 known), R21p (with_pos preserves variant and kind of knowledge), R25p (visit/leave pairing). Third session: R21a/R21c also require partly known shapes (Hole, Narrowed[Any], Narrowed[candidates]) to pass every dispatch (F45 fixed); R21s parameters are layered over the enclosing scope in FuncDef::derive_shape (F42 fixed); R21d every result-carrying sub-expression (select branches and default, func body, module out) flows into the derived shape (F44 fixed); R21n a callee's open parameter shapes are not narrowed in the caller's table (F43 known). R21q: with one candidate's comparison forced to a fitting shape and the others unknown, narrow_cached builds no TypeErr (evaluated; one fitting candidate is enough). R21m: merge_in_shape drops an incoming select candidate only when Shape::equivalent (one-directional on tuples) holds both ways (F46). R21e: with is_empty() answering true, an empty candidate list on either side of narrow never reaches the candidate comparison (evaluated). R21f: with the target of map / filter / reduce forced to a shape of unknown kind and the callback a function of unknown arity, no TypeErr is built (evaluated).",
+                       "completeness of the checker in general (value-level rules of narrow, e.g. `[1] + [\"a\"]`). Added later: R21b for partly known left shapes, R21h (F33 known), R21p (with_pos preserves variant and kind of knowledge), R25p (visit/leave pairing). Third session: R21a/R21c also require partly known shapes (Hole, Narrowed[Any], Narrowed[candidates]) to pass every dispatch (F45 fixed); R21s parameters are layered over the enclosing scope in FuncDef::derive_shape (F42 fixed); R21d every result-carrying sub-expression (select branches and default, func body, module out) flows into the derived shape (F44 fixed); R21n a callee's open parameter shapes are not narrowed in the caller's table (F43 known). R21q: with one candidate's comparison forced to a fitting shape and the others unknown, narrow_cached builds no TypeErr (evaluated; one fitting candidate is enough). R21m: merge_in_shape drops an incoming select candidate only when Shape::equivalent (one-directional on tuples) holds both ways (F46). R21e: with is_empty() answering true, an empty candidate list on either side of narrow never reaches the candidate comparison (evaluated). R21f: with the target of map / filter / reduce forced to a shape of unknown kind and the callback a function of unknown arity, no TypeErr is built (evaluated). R19n (shared with C06): the checker counts its nesting into module expressions (a flag instead of a counter checks the rest of an outer module body at file level).",
         "assumptions": ["runtime kind -> Shape variant map of impl DeriveShape for Value (List->List, Tuple->Tuple, Str->Str)"],
     },
     "C17": {
@@ -175,7 +175,7 @@ PROPS = {
                        "evaluation of every jump patch (idx = len_a - 1, offset = len_b - len_a) plus jump arithmetic and short-circuit "
                        "polarity in the VM; R4 exhaustive translation; R84 range bounds; R85 the `is` type-name table against the "
                        "reference. Not decided: values computed by arbitrary programs (that needs an independent evaluator, a dynamic "
-                       "oracle). Added later: R3s (PushSelf/PopSelf bracket, unconditional push/pop), R3t (the translator compiles every child of every node on every path), R31 of C10 (scope snapshots). R3s also: the child VM that evaluates the @{..} parts of a format string is built with the parent's self stack.",
+                       "oracle). Added later: R3s (PushSelf/PopSelf bracket, unconditional push/pop), R3t (the translator compiles every child of every node on every path), R31 of C10 (scope snapshots). R3s also: the child VM that evaluates the @{..} parts of a format string is built with the parent's self stack. R2e: PartialEq for opcode::Value (behind Equal / NotEqual) compares the number of fields of two tuples before looking the fields up.",
         "assumptions": ["the semantic table (left - right, text ~ pattern, item in container, container . key) is the reference's"],
         "technique": "static analysis: provenance composition translator/VM over MIR, linear forms for jump offsets, table agreement",
     },
